@@ -13,6 +13,12 @@ Proof.
   destruct (IH i) as [x [E1 E2]]; [lia|]. exists x. split; [exact E1|]. exact E2.
 Qed.
 
+Lemma skipn_skipn' {A} : forall (k m : nat) (l : list A), skipn k (skipn m l) = skipn (m + k) l.
+Proof.
+  intros k m. revert k. induction m as [|m IH]; intros k l; [reflexivity|].
+  destruct l as [|x t]; [rewrite !skipn_nil; reflexivity|]. simpl. apply IH.
+Qed.
+
 Lemma at_skipn (a : list N) i : (i < length a)%nat ->
   exists x, at_ a i = Ok x /\ skipn i a = x :: skipn (S i) a.
 Proof.
